@@ -59,6 +59,9 @@ def jobs(tier):
             for dmg in (["intact", "flip"], ["missing", "intact"], ["trunc", "intact"]):
                 out.append(("v%d.%s.P16384.%s.root" % (version, shape, "-".join(k[0] for k in dmg)), "job_recheck",
                             dict(prop="C04", version=version, shape=shape, P=16384, K=1, dmg=dmg, source="ref", cpath="root")))
+    for dmg in (["intact", "flip", "intact"], ["missing", "intact", "intact"], ["intact", "intact", "trunc"]):
+        out.append(("v1.ungrouped3.P16384.%s.ref" % "-".join(k[0] for k in dmg), "job_recheck",
+                    dict(prop="C04", version=1, shape="ungrouped3", P=16384, K=1, dmg=dmg, source="ref")))
     # a long-lived Checker: verified while intact, content damaged afterwards, verified again on the same object
     for version in (1, 2, 3):
         for kind in ("flip", "trunc"):
